@@ -3,6 +3,8 @@ package main
 // C16: stop groups, frontend life-cycles and reload against the real code.
 
 import (
+	"github.com/alicebob/miniredis"
+	redisstore "github.com/chihaya/chihaya/storage/redis"
 	"context"
 	"crypto/ecdsa"
 	"crypto/elliptic"
@@ -118,6 +120,7 @@ func lifeStoreStop(c *Ctx) {
 			}
 		}()
 		timecache.VerifSetClock(time.Now().UnixNano())
+		g0 := goroutinesOf("chihaya/storage/memory.")
 		ps, err := memory.New(memory.Config{ShardCount: 1, PeerLifetime: time.Hour, GarbageCollectionInterval: 20 * time.Millisecond, PrometheusReportingInterval: time.Hour})
 		if err != nil {
 			return "new-failed"
@@ -130,7 +133,8 @@ func lifeStoreStop(c *Ctx) {
 		early, _ := waitStop(res, 200*time.Millisecond)
 		release()
 		done, _ := waitStop(res, 3*time.Second)
-		return fmt.Sprintf("stop_pending_while_pass_parked=%s stopped=%s", b01(!early), b01(early || done))
+		left := goroutinesLeft("chihaya/storage/memory.", g0)
+		return fmt.Sprintf("stop_pending_while_pass_parked=%s stopped=%s goroutines_left=%d", b01(!early), b01(early || done), left)
 	}()
 	c.Emit(op, obs)
 }
@@ -334,6 +338,7 @@ func lifeHTTPL(c *Ctx, scenario string, delayUs int, listeners string) {
 				o = "PANIC " + strings.Fields(fmt.Sprint(p))[0]
 			}
 		}()
+		g0 := goroutinesOf("chihaya/frontend/http.")
 		ps, lg := newStoreLogic()
 		storeStopped := false
 		stopStore := func() {
@@ -396,7 +401,9 @@ func lifeHTTPL(c *Ctx, scenario string, delayUs int, listeners string) {
 		res := fe.Stop()
 		early, errs := waitStop(res, 150*time.Millisecond)
 		stoppedWhileGated := early && strings.HasPrefix(scenario, "gated") && atomic.LoadInt32(&gl.inAfter) > atomic.LoadInt32(&gl.afterEnd)
+		left := -1
 		if early {
+			left = goroutinesLeft("chihaya/frontend/http.", g0) // Stop has completed: nothing of the frontend runs any more
 			stopStore() // as cmd/chihaya does once the frontends (and the logic) have stopped
 		}
 		if scenario != "traffic" {
@@ -408,6 +415,7 @@ func lifeHTTPL(c *Ctx, scenario string, delayUs int, listeners string) {
 				return "STOP-DID-NOT-COMPLETE"
 			}
 			errs = e
+			left = goroutinesLeft("chihaya/frontend/http.", g0)
 			stopStore()
 		}
 		for i := 0; i < 1000 && atomic.LoadInt32(&gl.afterEnd) < atomic.LoadInt32(&gl.inAfter); i++ {
@@ -422,7 +430,7 @@ func lifeHTTPL(c *Ctx, scenario string, delayUs int, listeners string) {
 				listening = true
 			}
 		}
-		return fmt.Sprintf("stopped=1 errs=%d listening=%s stop_returned_while_posthook_running=%s served=%d store_used_after_stop=%s", len(errs), b01(listening), b01(stoppedWhileGated), served, b01(usedStopped))
+		return fmt.Sprintf("stopped=1 errs=%d listening=%s stop_returned_while_posthook_running=%s served=%d store_used_after_stop=%s goroutines_left=%d", len(errs), b01(listening), b01(stoppedWhileGated), served, b01(usedStopped), left)
 	}()
 	c.Emit(op, obs)
 }
@@ -440,6 +448,7 @@ func lifeUDP(c *Ctx, scenario string, delayUs int) {
 				o = "PANIC " + strings.Fields(fmt.Sprint(p))[0]
 			}
 		}()
+		g0 := goroutinesOf("chihaya/frontend/udp.")
 		ps, lg := newStoreLogic()
 		storeStopped := false
 		stopStore := func() {
@@ -504,7 +513,9 @@ func lifeUDP(c *Ctx, scenario string, delayUs int) {
 		res := fe.Stop()
 		early, errs := waitStop(res, 150*time.Millisecond)
 		stoppedWhileGated := early && strings.HasPrefix(scenario, "gated") && atomic.LoadInt32(&gl.inAfter) > atomic.LoadInt32(&gl.afterEnd)
+		left := -1
 		if early {
+			left = goroutinesLeft("chihaya/frontend/udp.", g0)
 			stopStore() // as cmd/chihaya does once the frontends (and the logic) have stopped
 		}
 		if scenario != "traffic" {
@@ -516,6 +527,7 @@ func lifeUDP(c *Ctx, scenario string, delayUs int) {
 				return "STOP-DID-NOT-COMPLETE"
 			}
 			errs = e
+			left = goroutinesLeft("chihaya/frontend/udp.", g0)
 			stopStore()
 		}
 		for i := 0; i < 1000 && atomic.LoadInt32(&gl.afterEnd) < atomic.LoadInt32(&gl.inAfter); i++ {
@@ -531,7 +543,7 @@ func lifeUDP(c *Ctx, scenario string, delayUs int) {
 		}
 		// a second Stop must be harmless
 		second, _ := waitStop(fe.Stop(), time.Second)
-		return fmt.Sprintf("stopped=1 errs=%d listening=%s stop_returned_while_posthook_running=%s served=%d second_stop=%s store_used_after_stop=%s", len(errs), b01(listening), b01(stoppedWhileGated), served, b01(second), b01(usedStopped))
+		return fmt.Sprintf("stopped=1 errs=%d listening=%s stop_returned_while_posthook_running=%s served=%d second_stop=%s store_used_after_stop=%s goroutines_left=%d", len(errs), b01(listening), b01(stoppedWhileGated), served, b01(second), b01(usedStopped), left)
 	}()
 	c.Emit(op, obs)
 }
@@ -669,6 +681,7 @@ func runC16(c *Ctx) {
 	}
 	lifeStoreStop(c)
 	lifeStoreStop(c)
+	lifeRedisStoreStop(c)
 	k := c.N / 40
 	if k < 3 {
 		k = 3
@@ -704,6 +717,7 @@ func lifeMetrics(c *Ctx, immediate bool) {
 		}()
 		port := freePort()
 		addr := fmt.Sprintf("127.0.0.1:%d", port)
+		g0 := goroutinesOf("chihaya/pkg/metrics.")
 		srv := metrics.NewServer(addr)
 		served := "-"
 		if !immediate {
@@ -722,6 +736,7 @@ func lifeMetrics(c *Ctx, immediate bool) {
 			}
 		}
 		stopped, errs := waitStop(srv.Stop(), 3*time.Second)
+		left := goroutinesLeft("chihaya/pkg/metrics.", g0)
 		// the moment Stop has completed the address must be free: a reload starts the next server on it at once
 		freeAtStop := false
 		if l, err := net.Listen("tcp", addr); err == nil {
@@ -752,7 +767,37 @@ func lifeMetrics(c *Ctx, immediate bool) {
 			conn.Close()
 			listening = true
 		}
-		return fmt.Sprintf("served=%s stopped=%s errs=%d free_at_stop=%s second_cycle=%s listening=%s", served, b01(stopped), len(errs), b01(freeAtStop), second, b01(listening))
+		return fmt.Sprintf("served=%s stopped=%s errs=%d free_at_stop=%s goroutines_left=%d second_cycle=%s listening=%s", served, b01(stopped), len(errs), b01(freeAtStop), left, second, b01(listening))
+	}()
+	c.Emit(op, obs)
+}
+
+// life.store_stop kind=redis: when the Redis store's Stop has completed, its expiry and metrics loops have returned
+func lifeRedisStoreStop(c *Ctx) {
+	op := "life.store_stop kind=redis"
+	c.Begin(op)
+	obs := func() (o string) {
+		defer func() {
+			if p := recover(); p != nil {
+				o = "PANIC " + strings.Fields(fmt.Sprint(p))[0]
+			}
+		}()
+		mr, err := miniredis.Run()
+		if err != nil {
+			return "miniredis-failed"
+		}
+		g0 := goroutinesOf("chihaya/storage/redis.")
+		ps, err := redisstore.New(redisstore.Config{RedisBroker: "redis://@" + mr.Addr() + "/0", PeerLifetime: time.Hour, GarbageCollectionInterval: 5 * time.Millisecond,
+			PrometheusReportingInterval: 5 * time.Millisecond, RedisReadTimeout: 2 * time.Second, RedisWriteTimeout: 2 * time.Second, RedisConnectTimeout: 2 * time.Second})
+		if err != nil {
+			return "new-failed"
+		}
+		p := bittorrent.Peer{ID: bittorrent.PeerIDFromString("-VF0001-000000000001"), Port: 6881, IP: bittorrent.IP{IP: []byte{10, 0, 0, 1}, AddressFamily: bittorrent.IPv4}}
+		_ = ps.PutSeeder(bittorrent.InfoHashFromString("01234567890123456789"), p)
+		time.Sleep(40 * time.Millisecond) // both loops are busy
+		stopped, _ := waitStop(ps.Stop(), 3*time.Second)
+		left := goroutinesLeft("chihaya/storage/redis.", g0)
+		return fmt.Sprintf("stopped=%s goroutines_left=%d", b01(stopped), left)
 	}()
 	c.Emit(op, obs)
 }
